@@ -505,6 +505,9 @@ func (ex *Exec) harnessPrim(fr *frame, st *State, fn *ssa.Function, args []Value
 			ex.KnownOrder = append(ex.KnownOrder, nm)
 		}
 		return ret(nil)
+	case "vNoOutcomeMerge":
+		ex.NoOutcomeMerge = true
+		return ret(nil)
 	case "vMergeOutcomes":
 		// the harness asks for shape-merging of the outcomes of the calls it makes itself (cheaper, less precise facts)
 		ex.KeepHarnessOutcomes = false
